@@ -8,6 +8,7 @@ import (
 	"bytes"
 	"errors"
 	"fmt"
+	"math"
 	"regexp"
 	"sort"
 	"strings"
@@ -54,6 +55,7 @@ func (a *Operator) Run(input string) (string, error) {
 
 func (a *Operator) assemble(assembleParser *parser.Parser, input *bytes.Buffer) (string, error) {
 	fileScanner := bufio.NewScanner(bytes.NewReader(input.Bytes()))
+	fileScanner.Buffer(nil, math.MaxInt)
 	fileScanner.Split(bufio.ScanLines)
 	processor = processors.NewAssemble(a.ctx)
 	processorStack.push(processor)
